@@ -75,6 +75,9 @@ def run(ctx):
     rep = lib.Report(ctx, "C17")
     n = 14 if ctx.tier != "thorough" else 200
     d, root0, root1, rng, stats, wids = c07.build(ctx, n, "c17")
+    # a few worlds with excluded files (by path entry, by directory, test files) for the configuration with several exclude-paths entries
+    for i in range(2):
+        worldgen.render(worldgen.c14_world(rng, "x%04d" % i, "w"), root0, rng)
     files0 = c07.read_tree(root0)
     disk = {rel: open(os.path.join(root0, rel)).read() for rel in files0}
     codes, arms, ANALYZER_OF = extracted_tables(ctx)
@@ -86,7 +89,7 @@ def run(ctx):
     text_equal = 0
     dump = os.path.join(d, "dump.sx")
     src_rc, serr = worlds.skel(ctx, root0, dump)
-    cfgs = [("default", (False, ["testdata"], [])), ("scan-tests", (True, [], []))]
+    cfgs = [("default", (False, ["testdata"], [])), ("scan-tests", (True, [], [])), ("scan-tests, two exclude-paths entries", (True, ["zz_generated", "/gen/"], []))]
     sample_pool = []
     for name, cfg in cfgs:
         r = lib.run_binary(ctx, root0, flags=worlds.cfg_flags(cfg), timeout=1500)
@@ -220,7 +223,7 @@ def run(ctx):
     lib.obligation_gate(rep, ctx, "C17", found)
     rep.cov["evaluations"] = checked + len(comments) * 2 + len(exit_runs)
     rep.cov["distinct_nontrivial"] = len(per_code) * 0 + sum(1 for _ in per_code) + len(comments) + sum(1 for e in exit_runs if e["diagnostics_printed"] > 0)
-    rep.cov["rule"] = ("%d generated worlds (all 16 codes), default and scan-tests configurations. Every -json diagnostic: header shape, code in the regenerated table, no other code in the message, "
+    rep.cov["rule"] = ("%d generated worlds (all 16 codes) plus two worlds with excluded files; default, scan-tests, and scan-tests with two exclude-paths entries. Every -json diagnostic: header shape, code in the regenerated table, no other code in the message, "
                        "analyzer of the category, file of the reporting package and not excluded, single help line = the category's page; for IMM/CTOR/TONL/PKGO the full message text must equal the "
                        "model's rendering of (file content, line, column, code, short message). Self-suppression: up to 2 diagnostics per (world, code, first line of a statement or a continuation line) get `// @ignore CODE` appended, all at once; the "
                        "re-run must lose exactly those (TONL01/PKGO01 may move) by the C07 text oracle and the model. Text mode: %d runs over package patterns with and without diagnostics "
